@@ -316,6 +316,17 @@ func convertReal(real core.ZodSchema, o Opt) (c compiled) {
 
 func b01(b bool) string { return hx.B01(b) }
 
+func probeLegacyObj() bool {
+	legacy := false
+	hx.Safely(func() {
+		js, err := gozod.ToJSONSchema(gozod.Object(core.ObjectSchema{"a": gozod.String()}).Partial())
+		if err == nil && js != nil && len(js.Required) > 0 {
+			legacy = true
+		}
+	})
+	return legacy
+}
+
 var panics int
 
 // runInst: parse with `real` (a fresh build for the first conversion, the live converted instance for
@@ -497,6 +508,10 @@ func runC07(cfg hx.Config) error {
 		r.rawDocs, _ = os.Create(p)
 		defer r.rawDocs.Close()
 	}
+	// probe: does the converter ask the object which fields may be absent?  Object{a: String()}.Partial() has no
+	// required field; a converter that looks at the field schemas alone still emits required:["a"].
+	legacyObj = probeLegacyObj()
+	out.Count("probe:converter-ignores-object-optionality=" + b01(legacyObj))
 	corpus := corpusSchemas()
 	seen := map[string]bool{}
 	liveOf := map[*Sch]*live{}
@@ -508,6 +523,12 @@ func runC07(cfg hx.Config) error {
 			s = corpus[i]
 		} else {
 			s = g.schema(3, true)
+			// a Partial(keys…) / Required(keys…) call history on an object at the top of the schema (the model has per-field
+			// state at the top only; nested objects get the plain Partial() flag)
+			if s.K == "obj" && len(s.Fields) > 0 && rng.Chance(45) {
+				s.Part = false
+				s.Ops = g.objOps(s)
+			}
 			// Lazy on top of the schema (the model has Lazy at the top only): once or twice, with the lazy schema's own
 			// Optional()/Nilable() flags
 			if rng.Chance(12) {
@@ -522,8 +543,8 @@ func runC07(cfg hx.Config) error {
 			continue
 		}
 		seen[text] = true
-		if s.K != "lazy" {
-			g.pool = append(g.pool, s) // a lazy schema is never embedded in a later schema
+		if s.K != "lazy" && len(s.Ops) == 0 {
+			g.pool = append(g.pool, s) // a lazy schema / an object with a call history is never embedded in a later schema
 		}
 		lv := &live{s: s, text: text, dup: hasDup(s), judged: map[string]bool{}}
 		for _, u := range g.used {
